@@ -58,7 +58,7 @@ func buildKeytab() []accept.KeytabEntry {
 		kt = append(kt, accept.KeytabEntry{Realm: realm, Name: kmsg.N(1, "ldap", "alt.test.gokrb5"), Kvno: 1, Etype: et, Timestamp: 1600000000,
 			Key: pcommon.RefKey(vh.NewRand("c01kt", realm, "ldapalt", 1, et), et)})
 	}
-	return kt
+	return widenKeytab(kt)
 }
 
 func findKey(kt []accept.KeytabEntry, rl string, n kmsg.Name, kv uint32, et int32) kmsg.Key {
@@ -134,6 +134,11 @@ func truncate(rnd *vh.Rand) func([]byte) []byte {
 }
 
 func catalogue() []defect {
+	cat := append(narrowCatalogue(), kvnoDefects()...)
+	return append(cat, pacDefects()...)
+}
+
+func narrowCatalogue() []defect {
 	sec := time.Second
 	return []defect{
 		// ---- rejecting
@@ -310,8 +315,9 @@ func catalogue() []defect {
 		{"pac-bitflip", "reject", func(c *cas) { c.pacKind = "bad" }},
 		{"pac-wrong-key", "reject", func(c *cas) { c.pacKind = "wrongkey" }},
 		// ---- neutral
-		{"n-kvno-zero", "neutral", func(c *cas) { c.m.Kvno = kmsg.U32(0) }},
-		{"n-kvno-absent", "neutral", func(c *cas) { c.m.Kvno = nil }},
+		// "any version": the ticket is sealed under the key that is both the newest entry and the highest version of the principal
+		{"n-kvno-zero", "neutral", func(c *cas) { sealUnder("w31")(c); c.m.Kvno = kmsg.U32(0) }},
+		{"n-kvno-absent", "neutral", func(c *cas) { sealUnder("w31")(c); c.m.Kvno = nil }},
 		{"n-expired-exactly-at-bound", "neutral", func(c *cas) { c.m.Tkt.EndTime = c.now0.Add(-c.cfg.effSkew()) }},
 		{"n-expired-1s-inside", "neutral", func(c *cas) { c.m.Tkt.EndTime = c.now0.Add(-c.cfg.effSkew() + sec) }},
 		{"n-notyetvalid-exactly-at-bound", "neutral", func(c *cas) {
@@ -419,7 +425,10 @@ func TestProp(t *testing.T) {
 	r.SetRule("requests minted by the reference (ref/kmsg + ref/kcrypto), never by gokrb5: per etype {16,17,18,19,20,23} x 72 service configurations " +
 		"(skew default/1s/1h x RequireHostAddr x ClientAddress unset/match/mismatch x KeytabPrincipal override x DecodePAC): the base request, every single defect of the catalogue and " +
 		"seeded (quick) or all (thorough) ordered pairs; the expected verdict and identity come from the reference acceptor (RFC 4120 3.2.3) run on the same bytes, settings and virtual time; " +
-		"VerifyAPREQ runs under a virtual clock (testing/synctest) so the exact skew bounds are decided to the nanosecond. distinct = (etype,config,defect list); non-trivial = all")
+		"VerifyAPREQ runs under a virtual clock (testing/synctest) so the exact skew bounds are decided to the nanosecond. The keytab is loaded from the bytes of the reference keytab writer and holds, " +
+		"per principal, key versions that need 8, 16 and 32 bits (PRNG-drawn): tickets sealed under each of them, and tickets whose label differs from the sealing version only in the high octets. " +
+		"PACs: valid, signed data changed, wrong key, and containers that cannot be read (cut inside header / buffer table / buffers, buffer count or buffer extent beyond the data). " +
+		"distinct = (etype,config,defect list); non-trivial = all")
 	r.Assume("reference acceptor ref/accept and reference crypto ref/kcrypto (RFC-vector self-test on every run)")
 	r.Assume("error codes are observed (histogram) but not judged: the statement fixes accept/reject and the reported identity only")
 	r.Note("not judged (only absence of panics): empty sname/cname lists; sname krbtgt. A ticket restricted to addresses is not acceptable to a service that does not know the client address (RFC 4120 3.2.3)")
@@ -497,6 +506,27 @@ func TestProp(t *testing.T) {
 	}
 	r.Require("identity_checked", 200)
 	r.Require("replay_second_presentation_rejected", 50)
+	// key versions beyond 8 bits (keytab loaded from bytes) and PAC containers that cannot be read
+	r.Require("accept_agreed_wide_kvno", 300)
+	r.Require("reject_agreed_wide_kvno_mislabelled", 1000)
+	r.Require("reject_agreed_unreadable_pac", 300)
+	r.Require("accept_agreed_unreadable_pac", 100) // PAC decoding disabled
+}
+
+// family names the widened input family of a single-defect case (for the observation thresholds).
+func family(names []string) string {
+	if len(names) != 1 {
+		return ""
+	}
+	switch n := names[0]; {
+	case strings.HasPrefix(n, "n-kvno-wide-"):
+		return "wide_kvno"
+	case strings.HasPrefix(n, "tkt-kvno-wide-"), n == "tkt-kvno-newest-labelled-plus-multiple-of-256":
+		return "wide_kvno_mislabelled"
+	case n == "pac-shorter-than-header", n == "pac-shorter-than-buffer-table", n == "pac-cut-inside-buffers", n == "pac-buffer-count-beyond-data", n == "pac-buffer-outside-data":
+		return "unreadable_pac"
+	}
+	return ""
 }
 
 func addPAC(r *vh.Run, c *cas) bool {
@@ -515,6 +545,9 @@ func addPAC(r *vh.Run, c *cas) bool {
 	case "wrongkey":
 		k2 := kmsg.Key{Type: key.Type, Value: pcommon.RefKey(c.rnd, key.Type)}
 		p, _ = pac.Sample(k2, c.rnd)
+	case "good":
+	default:
+		p = damagePAC(c.pacKind, p, c.rnd)
 	}
 	c.m.Tkt.AuthzData = append([]kmsg.AD{{Type: 1, Data: kmsg.ADsDER([]kmsg.AD{{Type: 128, Data: p}})}}, c.m.Tkt.AuthzData...)
 	return true
@@ -685,6 +718,9 @@ func runCase(t *testing.T, r *vh.Run, ck string, c *cas, gkt *keytab.Keytab, kin
 			return
 		}
 		r.Inc("identity_checked")
+		if fam := family(names); fam != "" {
+			r.Inc("accept_agreed_" + fam)
+		}
 		if kind == "base" {
 			r.SampleKind("accepted-base", 2, detail())
 		}
@@ -700,6 +736,9 @@ func runCase(t *testing.T, r *vh.Run, ck string, c *cas, gkt *keytab.Keytab, kin
 		return
 	}
 	r.Inc("reject_agreed")
+	if fam := family(names); fam != "" {
+		r.Inc("reject_agreed_" + fam)
+	}
 	if c.replay {
 		r.Inc("replay_second_presentation_rejected")
 	}
